@@ -660,3 +660,30 @@ pub fn run_v0(report: &Report, tier: Tier, mem_v1: &[u8]) {
     let c0 = ctx0(true);
     scripts.par_iter().for_each(|s| check_script(report, s, &c0, &mem0, false));
 }
+
+/// A nesting program (see `resume.rs`) on the v0 interface. `Ok(true)`: ran to the end,
+/// `Ok(false)`: runtime error.
+pub fn run_nesting_v0(wasm: &[u8], init: bool) -> Result<bool, String> {
+    let inst = instantiate_with_metering::<v0::ProcessedImports>(ValidationConfig::V0, CostConfigurationV0, &v0::ConcordiumAllowedImports, wasm).map_err(|e| format!("module rejected: {e:#}"))?;
+    let artifact: concordium_wasm::artifact::Artifact<v0::ProcessedImports, CompiledFunction> = inst.artifact;
+    let policy: Vec<u8> = (100..112).collect();
+    mc_core::set_dirty_limit(MEM);
+    if init {
+        let ictx: v0::InitContext<&[u8]> = v0::InitContext { metadata: ChainMetadata { slot_time: Timestamp::from_timestamp_millis(0) }, init_origin: AccountAddress([1; 32]), sender_policies: &policy[..] };
+        let inv = v0::InitInvocation { amount: 0, init_name: "init_c", parameter: concordium_contracts_common::Parameter::new_unchecked(&[]), energy: InterpreterEnergy::new(BUDGET) };
+        match v0::invoke_init(&artifact, ictx, inv, false) {
+            Err(_) => Ok(false),
+            Ok(v0::InitResult::Success { .. }) => Ok(true),
+            Ok(_) => Err("unexpected v0 init outcome".into()),
+        }
+    } else {
+        let rc: v0::ReceiveContext<&[u8]> = v0::ReceiveContext { metadata: ChainMetadata { slot_time: Timestamp::from_timestamp_millis(0) }, invoker: AccountAddress([1; 32]), self_address: ContractAddress::new(1, 0), self_balance: Amount::from_micro_ccd(0), sender: Address::Contract(ContractAddress::new(5, 6)), owner: AccountAddress([2; 32]), sender_policies: &policy[..] };
+        let inv = v0::ReceiveInvocation { amount: 0, receive_name: "c.run", parameter: concordium_contracts_common::Parameter::new_unchecked(&[]), energy: InterpreterEnergy::new(BUDGET) };
+        let st = initial_state0();
+        match v0::invoke_receive(&artifact, rc, inv, &st[..], 1024, false) {
+            Err(_) => Ok(false),
+            Ok(v0::ReceiveResult::Success { .. }) => Ok(true),
+            Ok(_) => Err("unexpected v0 receive outcome".into()),
+        }
+    }
+}
